@@ -304,7 +304,11 @@ func c14concurrent(c *hx.Ctx, dur time.Duration, seed int64) error {
 }
 
 func init() {
-	hx.Register("C14conc", func(c *hx.Ctx) error {
+	hx.Register("C14conc", func(c *hx.Ctx) error { return c14viaChild(c, "C14conc", c14concChannel) })
+}
+
+func c14concChannel(c *hx.Ctx) error {
+	{
 		defer os.RemoveAll("./testdata")
 		defer os.RemoveAll("./testdata2")
 		seed := c.Seed
@@ -335,5 +339,5 @@ func init() {
 		c.Rep.Evaluations = 1
 		c.Rep.Distinct = 1
 		return nil
-	})
+	}
 }
